@@ -9,13 +9,13 @@ a_ = args(); R = Report("library_model_conformance", a_.prop or "C02", "one expr
 a = [1.5, -2.0, 0.0, 3.25, 3.25, -0.5]; b = [0.5, 4.0, -1.0, 3.25, 2.0, 0.0]; w = [0.1, 0.2, 0.3, 0.15, 0.05, 0.2]; iv = [2, 3, 1, 4]; idx = [4, 0, 2]
 m = [[1.0, -2.0, 0.5], [0.0, 4.0, 4.0], [2.5, 2.5, -1.0], [7.0, 0.0, 1.0]]; a3 = [1.0, 2.0, -1.0]; m1 = [[3.0, -1.0, 2.0]]
 IN = dict(a=a, b=b, w=w, iv=iv, idx=idx, m=m, a3=a3, m1=m1)
-EXPRS = """jnp.ptp(a)|jnp.max(a) - jnp.min(a)|jnp.mean(a)|jnp.mean(m)|jnp.stack([a, b])|jnp.pad(m, ((0, 2), (0, 0)))|jnp.pad(m, ((1, 0), (0, 1)))|jnp.pad(a, (1, 2))|jnp.squeeze(m1)|jnp.expand_dims(a, 0)
+EXPRS = """jnp.ptp(a)|jnp.max(a) - jnp.min(a)|jnp.mean(a)|jnp.mean(m)|jnp.stack([a, b])|jnp.stack([a[0], b[1], 2.5])|jnp.concatenate([m, m], axis=1)|jnp.concatenate([m, m], axis=-1)|jnp.concatenate([m, m], axis=0)|jnp.pad(m, ((0, 2), (0, 0)))|jnp.pad(m, ((1, 0), (0, 1)))|jnp.pad(a, (1, 2))|jnp.squeeze(m1)|jnp.expand_dims(a, 0)
 jnp.expand_dims(a, -1)|jnp.ravel(m)|m.ravel()|m.flatten()|jnp.argmin(a)|jnp.argmax(a)|jnp.argmax(m, axis=1)|jnp.count_nonzero(a)|jnp.matmul(m, a3)|m @ a3|a @ b|jnp.dot(a, b)|jnp.dot(m, a3)
 jnp.linalg.norm(a, ord=jnp.inf)|jnp.linalg.norm(a, ord=1)|np.prod(iv)|np.cumprod(iv)|np.append(iv, 1)|jnp.clip(a, -1, 1)|a.clip(0, 1)|jnp.where(a > 0, a, 0)|jnp.outer(a3, a3)|jnp.take(a, jnp.array(idx))|jnp.diff(a)
 jnp.hstack([a, b])|jnp.vstack([a, b])|jnp.concatenate([a, b])|jnp.reshape(m, (-1,))|m.reshape(3, 4)|m.reshape(2, -1)|m.T|m.swapaxes(0, 1)|jnp.sum(m, axis=0)|jnp.sum(m, axis=1)|jnp.sum(m)|jnp.max(m, axis=1)|jnp.min(m, axis=0)
 jnp.any(m > 1, axis=1)|jnp.all(m > -5)|jnp.any(a > 5)|(a > 0).any()|(a > -9).all()|jnp.broadcast_to(a3, (2, 3))|jnp.tile(iv, 2)|np.repeat(iv, 2)|jnp.ravel_multi_index((1, 2), (3, 4), mode='clip')
 jnp.ravel_multi_index((5, -1), (3, 4), mode='clip')|jnp.unravel_index(7, (3, 4))|jnp.isclose(a, b)|jnp.average(a, weights=w)|jnp.average(a)|jnp.arange(2, 7)|jnp.arange(5)|jnp.zeros((2, 3))|jnp.ones((2,))|jnp.full((2,), 3.5)
-a[1:3]|a[::-1]|a[:-2]|a[4:]|m[:, 0]|m[1]|m[1:3, 1]|a[-1]|a.at[1].set(9.0)|a.at[jnp.array(idx)].add(1.0)|jnp.argsort(a)|jax.lax.dynamic_slice_in_dim(jnp.array(a), 3, 2)|jax.lax.dynamic_slice_in_dim(jnp.array(a), 5, 3)
+a[:, None]|a[None, :]|m[:, None, 1]|a[1:3]|a[::-1]|a[:-2]|a[4:]|m[:, 0]|m[1]|m[1:3, 1]|a[-1]|a.at[1].set(9.0)|a.at[jnp.array(idx)].add(1.0)|jnp.argsort(a)|jax.lax.dynamic_slice_in_dim(jnp.array(a), 3, 2)|jax.lax.dynamic_slice_in_dim(jnp.array(a), 5, 3)
 jax.lax.dynamic_slice(jnp.array(m), (1, 1), (2, 2))|jax.lax.dynamic_slice(jnp.array(m), (3, 2), (2, 2))|jnp.minimum(a, b)|jnp.maximum(a, 0)|jnp.abs(a)|a.sum()|a.max()|a.min()|m.mean()|m.sum(axis=1)|jnp.size(m)|m.size
 jnp.amax(a)|jnp.negative(a)|jnp.subtract(a, b)|jnp.multiply(a, b)|jnp.add(a, b)|jnp.sum(a * w)|jnp.max(jnp.abs(a - b))|(a - b).max() - (a - b).min()|jnp.cumprod(jnp.array(iv))|np.r_[iv, 1]|np.cumprod(iv[:0:-1])[::-1]
 jnp.any(m != 0.0, axis=1).sum()|jnp.zeros_like(a)|jnp.asarray(iv) * 2|-jnp.asarray(a)|jnp.asarray(a) ** 2|jnp.asarray(iv) // 2|jnp.asarray(iv) % 3|jnp.where(jnp.asarray(a) >= 3.25, 1, 0).sum()""".replace("\n", "|").split("|")
